@@ -1,6 +1,6 @@
 /-
   C05 — candidate clusters group protoclusters by the documented kinds.
-  Property theorems only; helper lemmas in ASV/Proofs/{MergeSets,Candidates,Coverage,Members,SpecBridge,NoDup,Passes,Total,HybridWindow}.lean.
+  Property theorems only; helper lemmas in ASV/Proofs/{MergeSets,Candidates,Coverage,Members,SpecBridge,NoDup,Passes,Total,HybridWindow,PermInvariant,RingFacts,RingInterleaved,NoDupRing,RingHybrid,SortModel,SortLinear}.lean.
 
   Model: ASV/Model/Candidates.lean (formation.py after the repairs D16, D19, D501–D507).
   `formation ps wrap` is `create_candidates_from_protoclusters(protoclusters, circular_wrap_point)`;
@@ -8,7 +8,7 @@
   only hypothesis on the input is `ps.Nodup` (no protocluster object supplied twice), and only where
   counting is involved.  Every theorem holds for all inputs, linear and circular, of any size.
 -/
-import ASV.Proofs.HybridWindow
+import ASV.Proofs.SortLinear
 namespace ASV.C05
 open ASV ASV.CC ASV.CC.Spec
 
@@ -131,11 +131,23 @@ theorem no_duplicate_candidates_partial (ps : List Proto) (cs : List Cand) (hn :
   formation_noDuplicates_linear hn hlin h
 
 /-- Full statement (any record).  On a circular record the table key of a *replacement* candidate
-    (promotion) is the key of the group that triggered it, and that the merged span has the same two
-    ends needs `connect_locations` on a ring (C04: correspondence only); the executable `noDuplicates`
-    is evaluated on every implementation output instead. -/
+    (promotion) is the key of the group that triggered it; that the merged span has the same two ends
+    is proved below when all protoclusters fit into less than half the record
+    (`no_duplicate_candidates_ring_partial`); for larger spreads `connect_locations` is not the shortest
+    arc and the executable `noDuplicates` is evaluated on every implementation output instead. -/
 def NoDuplicateCandidates : Prop :=
   ∀ (ps : List Proto) (wrap : Option Int) (cs : List Cand), ps.Nodup → formation ps wrap = .ok cs → noDuplicates cs = true
+
+/-- Circular record of length `L`, H: every protocluster's extent is a single part or an
+    origin-spanning span of the record, and **one span shorter than half the record covers all
+    protoclusters** (`HalfRing`).  Then every candidate's span is the unique shortest arc covering its
+    members (C04 `connect_ring_shortest`), promotion keeps the table key, and no two candidates have the
+    same coordinates and members. -/
+theorem no_duplicate_candidates_ring_partial (L : Int) (ps : List Proto) (cs : List Cand) (hn : ps.Nodup)
+    (hL : 0 < L) (hv : ∀ p, p ∈ ps → RingInStrict L p.loc)
+    (hhalf : ∃ c, areaWF L L c = true ∧ 2 * c.len < L ∧ ∀ p, p ∈ ps → ∀ i, p.loc.mem i = true → c.mem i = true)
+    (h : formation ps (some L) = .ok cs) : noDuplicates cs = true :=
+  formation_noDuplicates_ring hn ⟨hL, hv, hhalf⟩ h
 
 /-! ### 5. the kinds: what each pass groups -/
 
@@ -160,8 +172,9 @@ theorem hybrid_groups_are_sharing_classes (clusters : List Proto) (wrap : Option
 
 /-- Full statement (any record): a hybrid group is a sharing class plus exactly the unshared
     protoclusters whose core lies inside the class's connected core.  Proved below for linear records
-    (H: `wrap = none`, cores non-empty single parts inside their extents); on a circular record the
-    window works on `core_start`, which is not the sort key for origin-spanning cores — correspondence. -/
+    (H: `wrap = none`, cores non-empty single parts inside their extents) and for circular records when the
+    unshared protoclusters have single-part cores (`hybrid_groups_exact_ring_partial`); with an unshared
+    origin-spanning core the window works on `core_start`, which is not the sort key — correspondence. -/
 def HybridGroupsExact : Prop :=
   ∀ (clusters : List Proto) (wrap : Option Int) (hg : List (List Proto)) (un : List Proto), clusters.Nodup →
     findHybrids clusters wrap = .ok (hg, un) →
@@ -186,6 +199,22 @@ theorem hybrid_groups_exact_partial (clusters : List Proto) (hg : List (List Pro
           (p ∈ g ↔ locationContainsOther core p.core = true) :=
   findHybrids_complete_linear h hn hv
 
+/-- Chemical hybrids on a circular record of length `L`, exact, H: the protoclusters that share a gene
+    with nobody have single-part cores inside their extents (`hv2`; the members of the hybrid groups
+    may have origin-spanning cores, and a group's combined core may span the origin — then the scan
+    starts at the front, never breaks, and is followed by the second scan). -/
+theorem hybrid_groups_exact_ring_partial (L : Int) (hL : 0 < L) (clusters : List Proto) (hg : List (List Proto))
+    (un : List Proto) (hn : clusters.Nodup) (hv1 : ∀ p, p ∈ clusters → RingIn L p.core)
+    (hv2 : ∀ p, p ∈ clusters → (∀ q, q ∈ clusters → q ≠ p → shares p q = false) →
+      ∃ r, p.core = .simple r ∧ r.lo < r.hi ∧ p.loc.start ≤ r.lo)
+    (h : findHybrids clusters (some L) = .ok (hg, un)) :
+    ∀ g, g ∈ hg → ∃ (m : List Proto) (core : Loc), (∀ x, x ∈ m → x ∈ g) ∧ 2 ≤ m.length ∧
+        (∀ a b, a ∈ m → b ∈ m → Linked (shareGroups clusters) a b) ∧
+        connect (m.map (·.core)) (some L) = .ok core ∧
+        ∀ p, p ∈ clusters → (∀ q, q ∈ clusters → q ≠ p → shares p q = false) →
+          (p ∈ g ↔ locationContainsOther core p.core = true) :=
+  findHybrids_complete_ring hL h hn hv1 hv2
+
 /-- Interleaved, completeness (any record): two protoclusters linked by a chain of units (hybrid
     candidates with their combined cores `cc`, unabsorbed protoclusters) with overlapping cores are in
     one interleaved group — the sorted scan with its early `break` loses no pair. -/
@@ -200,7 +229,7 @@ theorem interleaved_pairs_complete (clusters : List Proto) (cands : List Cand) (
   exact (mergeSets_linked G a b).2 (linked_of_cover h1 hl)
 
 /-- Interleaved on a linear record: exactly the chain classes of "cores overlap" -/
-theorem interleaved_groups_are_classes_partial (clusters : List Proto) (cands : List Cand)
+theorem interleaved_groups_are_classes_linear (clusters : List Proto) (cands : List Cand)
     (cc : List CandC) (ig : List (List Proto)) (un : List Proto) (hn : clusters.Nodup)
     (hne : ∀ p, p ∈ clusters → p.core.PartsNonEmpty)
     (hcc : withCores none cands = .ok cc) (h : findInterleaved clusters cands none = .ok (ig, un)) :
@@ -208,16 +237,26 @@ theorem interleaved_groups_are_classes_partial (clusters : List Proto) (cands : 
   obtain ⟨G, hG, h1, h2⟩ := findInterleaved_groups h hcc hn hne
   intro a b
   rw [hG, mergeSets_linked]
-  exact ⟨linked_of_cover (h2 (withCores_none_simple hcc)), linked_of_cover h1⟩
+  refine ⟨linked_of_conn ?_, linked_of_cover h1⟩
+  intro g hg x y hx hy
+  rcases h2 g hg with ⟨g', hg', hsub⟩ | hcross
+  · exact Linked.base hg' (hsub x hx) (hsub y hy)
+  · exact (crossGroup_none (withCores_none_simple hcc) hcross).elim
 
-/-- Full statement for circular records: soundness of the origin-crossing step (`core_group`) needs
-    "overlapping the connected span of origin-spanning cores ⇒ overlapping one of them", i.e.
-    `connect_locations` on a ring; the reference comparison of the correspondence carries it. -/
-def InterleavedGroupsAreClasses : Prop :=
-  ∀ (clusters : List Proto) (cands : List Cand) (wrap : Option Int) (cc : List CandC) (ig : List (List Proto))
-    (un : List Proto), clusters.Nodup → (∀ p, p ∈ clusters → p.core.PartsNonEmpty) →
-    withCores wrap cands = .ok cc → findInterleaved clusters cands wrap = .ok (ig, un) →
-    ∀ a b, (∃ r, r ∈ ig ∧ a ∈ r ∧ b ∈ r) ↔ Linked (overlapGroups (interleaveUnits clusters cc)) a b
+/-- Interleaved on a circular record of length `L`: also exactly those chain classes.  The group
+    the origin-crossing step adds (`core_group`: members of candidates whose combined core spans the
+    origin, and protoclusters whose core overlaps the connected span of those cores) is chain-connected:
+    by the C04 closed form of `connect_locations` on a ring, the connected span of origin-spanning
+    spans is the union of their bases, so a protocluster overlapping it overlaps one of the candidates,
+    and any two origin-spanning cores overlap each other.  Hypotheses: the candidates have members
+    whose cores are locations of the record (`RingIn`: parts non-empty, inside `[0, L]`). -/
+theorem interleaved_groups_are_classes_ring (L : Int) (hL : 0 < L) (clusters : List Proto) (cands : List Cand)
+    (cc : List CandC) (ig : List (List Proto)) (un : List Proto) (hn : clusters.Nodup)
+    (hne : ∀ p, p ∈ clusters → p.core.PartsNonEmpty)
+    (hcv : ∀ c, c ∈ cands → c.members ≠ [] ∧ ∀ m, m ∈ c.members → RingIn L m.core)
+    (hcc : withCores (some L) cands = .ok cc) (h : findInterleaved clusters cands (some L) = .ok (ig, un)) :
+    ∀ a b, (∃ r, r ∈ ig ∧ a ∈ r ∧ b ∈ r) ↔ Linked (overlapGroups (interleaveUnits clusters cc)) a b :=
+  findInterleaved_classes_ring hL h hcc hn hne hcv
 
 /-- Neighbouring (any record, unconditional after fixes D501/D502): two protoclusters are in one
     neighbouring group iff a chain of units (candidates so far, remaining protoclusters) with
@@ -227,14 +266,75 @@ theorem neighbouring_groups_are_overlap_classes (singles : List Proto) (cands : 
       Linked (overlapGroups (neighbourUnits singles cands)) a b :=
   findNeighbouring_classes singles cands a b
 
-/-- Not proved (left to the correspondence, which compares every implementation output with
-    `Spec.reference` and re-runs every case under permutations of the input): the composition of the
-    three passes with the coordinate table equals the reference, and hence the result as a set does
-    not depend on the order of the input. -/
-def FormationIsOrderIndependent : Prop :=
-  ∀ (ps qs : List Proto) (wrap : Option Int) (cs ds : List Cand), ps.Nodup → ps.Perm qs →
-    formation ps wrap = .ok cs → formation qs wrap = .ok ds →
-    (∀ c, c ∈ cs → ∃ d, d ∈ ds ∧ d.kind = c.kind ∧ d.loc = c.loc ∧ sameMembers c.members d.members = true)
+/-! ### 6. the result does not depend on the order in which the protoclusters are supplied -/
+
+/-- `create_candidates_from_protoclusters` returns the **same ordered list** — same candidates in the
+    same order, members in the same order, same locations; or the same error — for every permutation
+    of its input, on linear and circular records alike.  After fix D507 the function starts with
+    `_sorted_protoclusters(protoclusters)`, whose pre-sort by `(product, core start, core end)` is a
+    strict total order when no two protoclusters have the same product and the same core
+    (`DistinctKeys`; in the pipeline one rule never yields two protoclusters with the same core), so
+    the list everything else is computed from is already independent of the input order. -/
+theorem formation_perm_invariant (ps qs : List Proto) (wrap : Option Int) (hn : ps.Nodup)
+    (hk : ∀ a b, a ∈ ps → b ∈ ps → a ≠ b → (a.product, a.core.start, a.core.end) ≠ (b.product, b.core.start, b.core.end))
+    (hp : ps.Perm qs) : formation ps wrap = formation qs wrap :=
+  formation_perm wrap hn hk hp
+
+/-- … in the weaker form of the property text (the outcome as a set of candidates) -/
+theorem formation_is_order_independent (ps qs : List Proto) (wrap : Option Int) (cs ds : List Cand) (hn : ps.Nodup)
+    (hk : ∀ a b, a ∈ ps → b ∈ ps → a ≠ b → (a.product, a.core.start, a.core.end) ≠ (b.product, b.core.start, b.core.end))
+    (hp : ps.Perm qs) (h1 : formation ps wrap = .ok cs) (h2 : formation qs wrap = .ok ds) :
+    ∀ c, c ∈ cs → ∃ d, d ∈ ds ∧ d.kind = c.kind ∧ d.loc = c.loc ∧ d.members = c.members := by
+  rw [formation_perm_invariant ps qs wrap hn hk hp, h2] at h1
+  injection h1 with h1
+  subst h1
+  intro c hc
+  exact ⟨c, hc, rfl, rfl, rfl⟩
+
+/-- the hypothesis cannot be dropped: two protoclusters with identical coordinates, identical core and
+    the same product are told apart by nothing, and the order of the members follows the input -/
+theorem formation_perm_needs_distinct_keys :
+    summary (formation [⟨0, .simple ⟨80, 130, .fwd⟩, .simple ⟨90, 120, .fwd⟩, [1], "a"⟩,
+                        ⟨1, .simple ⟨80, 130, .fwd⟩, .simple ⟨90, 120, .fwd⟩, [1], "a"⟩] none) =
+      some [(.hybrid, [0, 1])] ∧
+    summary (formation [⟨1, .simple ⟨80, 130, .fwd⟩, .simple ⟨90, 120, .fwd⟩, [1], "a"⟩,
+                        ⟨0, .simple ⟨80, 130, .fwd⟩, .simple ⟨90, 120, .fwd⟩, [1], "a"⟩] none) =
+      some [(.hybrid, [1, 0])] := by decide +kernel
+
+/-! ### 7. the sorting the model performs -/
+
+/-- `pySort` (CPython's `list.sort` for short lists: `count_run`, then binary insertion — what the
+    model uses wherever the code sorts with `CDSCollection.__lt__`) returns exactly the stable
+    insertion sort whenever `<` is a strict weak order: for consistent comparisons nothing depends on
+    the algorithm or on the 64-element limit of the modelled variant. -/
+theorem sort_model_is_the_stable_sort {α : Type} [DecidableEq α] (lt : α → α → Bool) (w : WeakOrder lt)
+    (l : List α) (hn : l.Nodup) : pySort lt l = sortBy lt l :=
+  pySort_eq_sortBy w hn
+
+/-- on a linear record (single-part extents) `CDSCollection.__lt__` *is* such an order — start
+    ascending, then longer first — so `sorted(candidates)` and `_sorted_protoclusters` are the plain
+    stable sorts by that key (the latter of the list pre-sorted by product and core) -/
+theorem sorting_on_a_line_is_by_start_then_length :
+    (∀ (cs : List Cand), cs.Nodup → (∀ c, c ∈ cs → ∃ p, c.loc = .simple p ∧ p.lo ≤ p.hi) →
+      sortCands cs = sortBy (fun a b => locKeyLt a.loc b.loc) cs) ∧
+    (∀ (ps : List Proto), ps.Nodup → (∀ p, p ∈ ps → ∃ q, p.loc = .simple q ∧ q.lo ≤ q.hi) →
+      sortProtos ps = sortBy (fun a b => locKeyLt a.loc b.loc) (sortBy tieLt ps)) :=
+  ⟨fun cs hn hs => sortCands_linear hn hs, fun ps hn hs => sortProtos_linear hn hs⟩
+
+/-- … whereas on a circular record it is not: a whole-record extent and an origin-spanning one are
+    each "smaller" than the other, which is why the algorithm itself is modelled -/
+theorem collection_order_inconsistent_on_a_ring :
+    locLt (.simple ⟨0, 100, .fwd⟩) (.compound [⟨90, 100, .fwd⟩, ⟨0, 10, .fwd⟩]) = true ∧
+    locLt (.compound [⟨90, 100, .fwd⟩, ⟨0, 10, .fwd⟩]) (.simple ⟨0, 100, .fwd⟩) = true := by decide
+
+/-- Not proved: the composition of the three passes with the coordinate table equals `Spec.reference`
+    (the correspondence compares every implementation output with it).  The per-pass theorems of
+    section 5 give the groups of each pass; the table step is covered by sections 2–4. -/
+def FormationRefinesReference : Prop :=
+  ∀ (ps : List Proto) (wrap : Option Int) (cs : List Cand) (es : List (Kind × List Proto)), ps.Nodup →
+    formation ps wrap = .ok cs → reference ps wrap = .ok es →
+    (∀ c, c ∈ cs → ∃ e, e ∈ es ∧ e.1 = c.kind ∧ sameMembers c.members e.2 = true) ∧
+    (∀ e, e ∈ es → ∃ c, c ∈ cs ∧ e.1 = c.kind ∧ sameMembers c.members e.2 = true)
 
 /-! ### non-vacuity -/
 
@@ -264,6 +364,94 @@ example :
                         ⟨0, .simple ⟨80, 130, .fwd⟩, .simple ⟨90, 120, .fwd⟩, [1], "c"⟩,
                         ⟨1, .simple ⟨80, 130, .fwd⟩, .simple ⟨90, 120, .fwd⟩, [1], "a"⟩] none) =
       some [(.hybrid, [1, 2, 0])] := by decide +kernel
+
+/-- circular record of length 12: the hybrid {0, 2} has a combined core spanning the origin although
+    no member's core does (D505's layout); protocluster 1 overlaps it, the origin-crossing step groups
+    them — the situation of `interleaved_groups_are_classes_ring` -/
+example :
+    summary (formation [⟨0, .simple ⟨0, 3, .fwd⟩, .simple ⟨0, 3, .fwd⟩, [1], "a"⟩,
+                        ⟨1, .simple ⟨2, 5, .fwd⟩, .simple ⟨2, 5, .fwd⟩, [], "b"⟩,
+                        ⟨2, .simple ⟨10, 12, .fwd⟩, .simple ⟨10, 12, .fwd⟩, [1], "c"⟩,
+                        ⟨3, .simple ⟨6, 8, .fwd⟩, .simple ⟨6, 8, .fwd⟩, [], "d"⟩] (some 12)) =
+    some [(.interleaved, [0, 1, 2]), (.hybrid, [0, 2]), (.single, [3])] := by decide +kernel
+
+/-- … and the hypotheses of `interleaved_groups_are_classes_ring` hold at that point of the run: the
+    hybrid candidate {2, 0} with its combined core `[10, 12) + [0, 3)`, the unabsorbed protoclusters 1, 3 -/
+example :
+    let p0 : Proto := ⟨0, .simple ⟨0, 3, .fwd⟩, .simple ⟨0, 3, .fwd⟩, [1], "a"⟩
+    let p1 : Proto := ⟨1, .simple ⟨2, 5, .fwd⟩, .simple ⟨2, 5, .fwd⟩, [], "b"⟩
+    let p2 : Proto := ⟨2, .simple ⟨10, 12, .fwd⟩, .simple ⟨10, 12, .fwd⟩, [1], "c"⟩
+    let p3 : Proto := ⟨3, .simple ⟨6, 8, .fwd⟩, .simple ⟨6, 8, .fwd⟩, [], "d"⟩
+    let hyb : Cand := ⟨.hybrid, [p2, p0], .compound [⟨10, 12, .fwd⟩, ⟨0, 3, .fwd⟩]⟩
+    (match withCores (some 12) [hyb] with
+      | .ok cc => cc == [(hyb, .compound [⟨10, 12, .fwd⟩, ⟨0, 3, .fwd⟩])]
+      | .error _ => false) = true ∧
+    (match findInterleaved [p1, p3] [hyb] (some 12) with
+      | .ok r => r == ([[p0, p1, p2]], [p3])
+      | .error _ => false) = true ∧
+    [p1, p3].Nodup ∧ (∀ p, p ∈ [p1, p3] → p.core.PartsNonEmpty) ∧
+    (∀ c, c ∈ [hyb] → c.members ≠ [] ∧ ∀ m, m ∈ c.members → RingIn 12 m.core) := by
+  intro p0 p1 p2 p3 hyb
+  refine ⟨by decide +kernel, by decide +kernel, by decide, ?_, ?_⟩
+  · intro p hp q hq
+    simp only [List.mem_cons, List.mem_nil_iff, or_false] at hp
+    rcases hp with rfl | rfl <;> (simp only [p1, p3, Loc.parts, List.mem_singleton] at hq; subst hq; decide)
+  · intro c hc
+    simp only [List.mem_singleton] at hc
+    subst hc
+    refine ⟨by simp [hyb], ?_⟩
+    intro m hm
+    simp only [hyb, List.mem_cons, List.mem_nil_iff, or_false] at hm
+    rcases hm with rfl | rfl <;> exact RingInStrict.ringIn (Or.inl ⟨_, rfl, by decide, by decide, by decide⟩)
+
+/-- circular record of length 100: the hybrid {0, 1} spans the origin, the unshared protoclusters 2 and 3
+    lie inside its combined core on either side of the origin and are picked up by the two scans, 4 is
+    not; the hypotheses of `hybrid_groups_exact_ring_partial` and of `no_duplicate_candidates_ring_partial`
+    (all extents inside the span `[90, 100) + [0, 9)`… here even `[40, 50)` is outside, so only the
+    former) hold for this input -/
+example :
+    let ps : List Proto := [⟨0, .simple ⟨90, 96, .fwd⟩, .simple ⟨90, 96, .fwd⟩, [1], "a"⟩,
+                            ⟨1, .simple ⟨4, 9, .fwd⟩, .simple ⟨4, 9, .fwd⟩, [1], "b"⟩,
+                            ⟨2, .simple ⟨97, 99, .fwd⟩, .simple ⟨97, 99, .fwd⟩, [], "c"⟩,
+                            ⟨3, .simple ⟨1, 3, .fwd⟩, .simple ⟨1, 3, .fwd⟩, [], "d"⟩,
+                            ⟨4, .simple ⟨40, 50, .fwd⟩, .simple ⟨40, 50, .fwd⟩, [], "e"⟩]
+    summary (formation ps (some 100)) = some [(.hybrid, [3, 1, 0, 2]), (.single, [4])] ∧
+    (∀ p, p ∈ ps → RingIn 100 p.core) ∧
+    (∀ p, p ∈ ps → ∃ r, p.core = .simple r ∧ r.lo < r.hi ∧ p.loc.start ≤ r.lo) := by
+  intro ps
+  refine ⟨by decide +kernel, ?_, ?_⟩
+  · intro p hp
+    simp only [ps, List.mem_cons, List.mem_nil_iff, or_false] at hp
+    rcases hp with rfl | rfl | rfl | rfl | rfl <;>
+      exact RingInStrict.ringIn (Or.inl ⟨_, rfl, by decide, by decide, by decide⟩)
+  · intro p hp
+    simp only [ps, List.mem_cons, List.mem_nil_iff, or_false] at hp
+    rcases hp with rfl | rfl | rfl | rfl | rfl <;> exact ⟨_, rfl, by decide, by decide⟩
+
+/-- a circular record whose protoclusters fit into less than half of it (`[88, 100) + [0, 12)` of 100):
+    the hypotheses of `no_duplicate_candidates_ring_partial` -/
+example :
+    let ps : List Proto := [⟨0, .compound [⟨95, 100, .fwd⟩, ⟨0, 5, .fwd⟩], .compound [⟨97, 100, .fwd⟩, ⟨0, 2, .fwd⟩], [], "a"⟩,
+                            ⟨1, .simple ⟨3, 12, .fwd⟩, .simple ⟨6, 9, .fwd⟩, [], "b"⟩,
+                            ⟨2, .simple ⟨88, 96, .fwd⟩, .simple ⟨90, 93, .fwd⟩, [], "c"⟩]
+    summary (formation ps (some 100)) = some [(.neighbouring, [0, 1, 2]), (.single, [0]), (.single, [1]), (.single, [2])] ∧
+    (∀ p, p ∈ ps → RingInStrict 100 p.loc) ∧
+    (∃ c, areaWF 100 100 c = true ∧ 2 * c.len < 100 ∧ ∀ p, p ∈ ps → ∀ i, p.loc.mem i = true → c.mem i = true) := by
+  intro ps
+  refine ⟨by decide +kernel, ?_, ⟨.compound [⟨88, 100, .fwd⟩, ⟨0, 12, .fwd⟩], by decide, by decide, ?_⟩⟩
+  · intro p hp
+    simp only [ps, List.mem_cons, List.mem_nil_iff, or_false] at hp
+    rcases hp with rfl | rfl | rfl
+    · exact Or.inr (Or.inl ⟨95, 5, .fwd, by decide, rfl, by decide, by decide, by decide⟩)
+    · exact Or.inl ⟨_, rfl, by decide, by decide, by decide⟩
+    · exact Or.inl ⟨_, rfl, by decide, by decide, by decide⟩
+  · intro p hp i hi
+    simp only [ps, List.mem_cons, List.mem_nil_iff, or_false] at hp
+    rw [mem_two]
+    rcases hp with rfl | rfl | rfl
+    · rw [mem_two] at hi; simp only at hi ⊢; omega
+    · rw [mem_simple] at hi; simp only at hi ⊢; omega
+    · rw [mem_simple] at hi; simp only at hi ⊢; omega
 
 /-- the hypotheses of the linear theorems (`formation_succeeds_on_line`, `hybrid_groups_exact_partial`,
     `no_duplicate_candidates_partial`) hold for that input -/
